@@ -180,6 +180,10 @@ func write(req *protocol.Request, w network.Writer, usingProxy bool) error {
 			ruri = uri.Host()
 		} else if usingProxy {
 			ruri = uri.FullURI()
+			// the absolute-form of a request target has no fragment (RFC 7230 5.3.2)
+			if n := len(uri.Hash()); n > 0 {
+				ruri = ruri[:len(ruri)-n-1]
+			}
 		}
 
 		req.Header.SetRequestURIBytes(ruri)
